@@ -139,7 +139,7 @@ def main():
                  "Exit codes of every check: 0 = every obligation of the property discharged on the bodies extracted from the current /repo tree (KNOWN-FINDING lines do not alarm); "
                  "1 = VIOLATION: a named obligation that the contracts of the unchanged tree discharge fails; 2 = undecided, never an alarm: lost anchor (a function, struct, field or parameter a contract is stated over is gone), "
                  "a construct outside the extraction rules, a call no model specifies (vocabulary guard), a failure at or after a new / rewritten loop that has no loop contract of its own, a composition of contracted functions re-implemented on the primitives, work moved across a call boundary, solver resource limit, vacuity guard. "
-                 "tools/regress.py replays 109 seeded changes and 145 behaviour-preserving refactorings against these rules (DESIGN.md 0.6).",
+                 "tools/regress.py replays 112 seeded changes and 145 behaviour-preserving refactorings against these rules (DESIGN.md 0.6).",
         "not_applicable": na,
     }
     json.dump(m, open(os.path.join(VERIF, "MANIFEST.json"), "w"), indent=1)
